@@ -264,6 +264,13 @@ impl System {
 pub struct StateKind { x: u8 }
 impl StateKind {
     pub uninterp spec fn log(&self) -> Seq<(u32, EntryCommand)>;
+    // LINKED (relational reading, not verbatim): units/journal/lemmas.rs, harness [C05.link.journal_sinks.apply] proves both clauses from the real
+    // FileState::apply with `log()` read as "a ghost sequence the journal file DENOTES" (valid journal whose entries carry, in order, the
+    // journal forms `cmd_bytes` of the logged commands and the user ids): Ok => the new file denotes log.push(..); Err => it denotes log or log.push(..)
+    // OR - a case this stub does not list - the write was torn and the file is no journal any more (the loader refuses it at the next
+    // start). The real function's preconditions are NOT carried here: the journal invariant `jwf` (broken by a failed apply: F16),
+    // `command.payload_fits()` (payload below 4 GiB) and unit journal's scope `encryptor is None`. The VALUE-level equation on `log()` as a
+    // function needs `cmd_bytes` injective = the round trip of unit journal_cmd ([C13.journal.cmd.rt]): still stated, not linked.
     #[verifier::external_body]
     pub fn apply(&mut self, user_id: u32, command: EntryCommand) -> (r: Result<(), IggyError>)
         ensures r is Ok ==> final(self).log() == old(self).log().push((user_id, command)),
@@ -281,6 +288,7 @@ pub mod crypto {
 }
 pub struct PersonalAccessToken { pub x: u8 }
 impl PersonalAccessToken {
+    // LINKED: units/credentials/lemmas.rs, harness [C10.link.journal_sinks.hash_token] (token_digest = credentials' digest `H`; mirror edits there)
     #[verifier::external_body]
     pub fn hash_token(token: &Name) -> (r: Name) ensures r == token_digest(*token) { unimplemented!() }
 }
@@ -490,6 +498,7 @@ impl System {
     #[verifier::external_body]
     pub fn ensure_authenticated(&self, session: &Session) -> (r: Result<(), IggyError>) { unimplemented!() }
     // unit alloc_runtime [C05.shape.stream.get] (= catalogue_maps [C06.byname.stream.get])
+    // LINKED: units/catalogue_maps/lemmas.rs, harness [C05.link.journal_sinks.get_stream] (mirror edits there)
     #[verifier::external_body]
     pub fn get_stream(&self, identifier: &Identifier) -> (r: Result<&Stream, IggyError>)
         ensures match r {
@@ -497,6 +506,7 @@ impl System {
             Err(_) => stream_of(self, identifier) is None },
     { unimplemented!() }
     // unit alloc_runtime [C05.shape.stream.get_mut]
+    // LINKED: units/catalogue_maps/lemmas.rs, harness [C05.link.journal_sinks.get_stream_mut] (mirror edits there)
     #[verifier::external_body]
     pub fn get_stream_mut(&mut self, identifier: &Identifier) -> (r: Result<&mut Stream, IggyError>)
         ensures match r {
@@ -507,6 +517,7 @@ impl System {
 }
 impl Stream {
     // unit alloc_runtime [C05.shape.topic.get] (= catalogue_maps [C06.byname.topic.get])
+    // LINKED: units/catalogue_maps/lemmas.rs, harness [C05.link.journal_sinks.get_topic] (mirror edits there)
     #[verifier::external_body]
     pub fn get_topic(&self, identifier: &Identifier) -> (r: Result<&Topic, IggyError>)
         ensures match r {
@@ -514,6 +525,7 @@ impl Stream {
             Err(_) => topic_of(self, identifier) is None },
     { unimplemented!() }
     // unit catalogue_maps [C06.fail.update_topic], [C06.update.topic.maps], [C06.bij.update_topic] (proved there against the real text)
+    // LINKED: units/catalogue_maps/lemmas.rs, harness [C05.link.journal_sinks.update_topic] (mirror edits there)
     #[verifier::external_body]
     pub fn update_topic(&mut self, id: &Identifier, name: &Name, message_expiry: IggyExpiry, compression_algorithm: CompressionAlgorithm,
         max_topic_size: MaxTopicSize, replication_factor: u8) -> (r: Result<(), IggyError>)
